@@ -4,6 +4,7 @@ package pilosa
 // a plain map model. Shared by C07, C10, C12, C13, C03, C09 and C29.
 
 import (
+	"bytes"
 	"context"
 	"fmt"
 	"os"
@@ -36,6 +37,10 @@ type l2 struct {
 
 	lastWrite string
 	hooks     l2Hooks
+
+	archive  []byte // fragment archive kept by the "archive" op
+	archBits map[uint64]map[uint64]bool
+	archVals map[uint64]int64
 }
 
 // l2Hooks lets properties add checks around the shared op executor.
@@ -372,6 +377,47 @@ func (h *l2) apply(op simrt.Op) {
 	case "await":
 		isWrite = false
 		f.awaitSnapshot()
+	case "archive": // keep the fragment's archive (what a resize transfers) and the model beside it
+		isWrite = false
+		var buf bytes.Buffer
+		if _, err := f.WriteTo(&buf); err != nil {
+			h.c.Fail("archive-error", "WriteTo: %v", err)
+			return
+		}
+		h.archive = buf.Bytes()
+		h.archBits = map[uint64]map[uint64]bool{}
+		for r, m := range h.bits {
+			h.archBits[r] = map[uint64]bool{}
+			for c := range m {
+				h.archBits[r][c] = true
+			}
+		}
+		h.archVals = map[uint64]int64{}
+		for c, v := range h.vals {
+			h.archVals[c] = v
+		}
+	case "restore": // replace the fragment's contents with the kept archive (fragment.ReadFrom)
+		if h.archive == nil {
+			isWrite = false
+			return
+		}
+		if _, err := f.ReadFrom(bytes.NewReader(h.archive)); err != nil {
+			h.c.Fail("restore-error", "ReadFrom: %v", err)
+			return
+		}
+		h.bits = map[uint64]map[uint64]bool{}
+		for r, m := range h.archBits {
+			h.bits[r] = map[uint64]bool{}
+			for c := range m {
+				h.bits[r][c] = true
+			}
+		}
+		h.vals = map[uint64]int64{}
+		for c, v := range h.archVals {
+			h.vals[c] = v
+		}
+		h.lastWrite = "restore"
+		h.c.Probe("restored-from-archive")
 	default:
 		isWrite = false
 		h.read(op)
@@ -703,7 +749,7 @@ func (g *l2Gen) readOp() simrt.Op {
 }
 
 func (g *l2Gen) storageOp() simrt.Op {
-	return simrt.Op{K: simrt.Pick(g.r, "snapshot", "snapshot", "reopen", "flush", "recalc", "await")}
+	return simrt.Op{K: simrt.Pick(g.r, "snapshot", "snapshot", "reopen", "flush", "recalc", "await", "archive", "restore")}
 }
 
 func newL2Gen(r *simrt.Rand, kind int) *l2Gen {
